@@ -1163,3 +1163,7 @@ mod tests {
         );
     }
 }
+
+#[cfg(all(test, pendulum_project_ntpd_rs_verif))]
+#[path = "/verif/harness/statime_algo/estimator.rs"]
+pub(crate) mod verif_hook;
